@@ -514,6 +514,9 @@ def aobj_member(f: Folder, obj: AObj, attr: str) -> Any:
     v = repo.lookup_class_attr(obj._cls_, attr)
     if v is not None:
         return Folder({}, repo, obj._cls_.module, obj._cls_, f.hook).fold(v)
+    for k in repo.mro(obj._cls_):
+        if isinstance(k, ClassInfo) and attr in k.inner:
+            return k.inner[attr]  # a class nested in the instance's class (`self.CastMode`)
     raise Unfoldable("%s has no member %s" % (obj._cls_.name, attr))
 
 
